@@ -29,6 +29,11 @@ from harness.common import Sym
 # ---------------------------------------------------------------------------
 # module source generator
 # ---------------------------------------------------------------------------
+# every spelling the google splitter accepts for an example block: alias, one or two colons, blanks around the colon(s)
+GOOGLE_LABELS = ['Example:', 'Example:', 'Doctest:', 'Examples:', 'Example::', 'Examples::', 'Example :', 'Examples :', 'Doctest :',
+                 'Doctest::', 'Example ::', 'Example: ', 'Doctest  :  ']
+
+
 def gen_doc(rng, uid, indent):
     """(docstring text or None, number of google example blocks, has freeform prompts)"""
     r = rng.random()
@@ -42,7 +47,7 @@ def gen_doc(rng, uid, indent):
     nblocks = rng.randint(1, 3)
     lines = [pad + 'Google %d.' % uid, '']
     for b in range(nblocks):
-        lines += [pad + rng.choice(['Example:', 'Example:', 'Doctest:']), pad + '    >>> print(%d, %d)' % (uid, b), pad + '    %d %d' % (uid, b), '']
+        lines += [pad + rng.choice(GOOGLE_LABELS), pad + '    >>> print(%d, %d)' % (uid, b), pad + '    %d %d' % (uid, b), '']
     if rng.random() < 0.3:
         lines += [pad + 'Args:', pad + '    x (int): something', '']
     return '\n'.join(lines), nblocks, True
